@@ -183,6 +183,7 @@ func (c *Ctx) c19Composition() {
 	}
 	nested(sm)
 	R.Floor("C19.R2", "composed session handlers built by SessionMiddleware", len(composed), 1)
+	okReg := false
 	for _, fn := range composed {
 		R.Analysed(fname(fn))
 		fk := fkey(fn)
@@ -233,56 +234,154 @@ func (c *Ctx) c19Composition() {
 			}
 			R.Check(ok, "C19.R2", fk+":returns-handler-error:"+retDescr(ret), c.at(ret), "the composed handler returns exactly the error of the handler that failed", "error operand is a result of one of the two handler calls", "the returned error does not come directly from the handler calls (e.g. it is re-read from a captured variable)")
 		}
-		// which captured variable is the parent: the first call's callee must be the wrapper's parameter
+		// which captured variable is the parent: the first callee must be bound to the value Server.Session
+		// had when the middleware was registered, and the composed handler must become the new Server.Session
 		fv := capturedVar(first.Call.Value)
-		parentIsParam := false
+		prevOK, regOK := false, false
+		why := "the first callee is not a captured variable"
 		if fv != nil && fn.Parent() != nil {
-			for i, v := range fn.FreeVars {
-				if v == fv {
-					// find the MakeClosure binding
-					for _, b := range fn.Parent().Blocks {
-						for _, in := range b.Instrs {
-							if mc, ok := in.(*ssa.MakeClosure); ok && mc.Fn == ssa.Value(fn) && i < len(mc.Bindings) {
-								bind := mc.Bindings[i]
-								if a, isAlloc := bind.(*ssa.Alloc); isAlloc { // captured by reference: the cell holds the parameter
-									for _, r := range core.Referrers(a) {
-										if st, ok := r.(*ssa.Store); ok && st.Addr == a {
-											bind = st.Val
-										}
-									}
-								}
-								if _, isParam := bind.(*ssa.Parameter); isParam && fn.Parent() != sm && fn.Parent().Parent() != nil {
-									parentIsParam = true
-								}
-							}
-						}
-					}
-				}
+			why = c.chainBinding(fn, fv, &prevOK, &regOK)
+		}
+		R.Check(prevOK, "C19.R2", fk+":first-is-previous", c.at(first), "the handler that runs first is the previously registered chain, so middlewares run in registration order", "the first callee is bound to the value of Server.Session read before the registration", "cannot establish that the first callee is the previously registered handler: "+why)
+		if regOK {
+			okReg = true
+		}
+	}
+	R.Check(okReg, "C19.R2", "SessionMiddleware:wraps-current-chain", c.atFn(sm), "registering a middleware wraps the current Server.Session chain", "Server.Session = composed handler over the previous Server.Session", "no store of the composed handler (over the previous Server.Session) to Server.Session found")
+}
+
+// chainBinding resolves what the captured variable fv of the composed handler fn is bound to and where
+// the composed handler goes. Two shapes are accepted: the closure is built in place (binding = a load
+// of Server.Session that precedes the store of the closure to Server.Session), or by a wrapper function
+// literal (binding = the wrapper's parameter, the wrapper returns the closure, and the store is
+// Server.Session = wrapper(Server.Session)).
+func (c *Ctx) chainBinding(fn *ssa.Function, fv *ssa.FreeVar, prevOK, regOK *bool) string {
+	idx := -1
+	for i, v := range fn.FreeVars {
+		if v == fv {
+			idx = i
+		}
+	}
+	var mc *ssa.MakeClosure
+	for _, b := range fn.Parent().Blocks {
+		for _, in := range b.Instrs {
+			if m, ok := in.(*ssa.MakeClosure); ok && m.Fn == ssa.Value(fn) {
+				mc = m
 			}
 		}
-		R.Check(parentIsParam, "C19.R2", fk+":first-is-previous", c.at(first), "the handler that runs first is the previously registered chain (the wrapper's argument), so middlewares run in registration order", "the first callee is the wrapper's parameter", "cannot establish that the first callee is the previously registered handler")
 	}
-	// registration: srv.Session = wrapper(srv.Session)
-	okReg := false
-	for _, a := range allNested(sm) {
-		for _, b := range a.Blocks {
+	if mc == nil || idx < 0 || idx >= len(mc.Bindings) {
+		return "closure construction not found"
+	}
+	bind := mc.Bindings[idx]
+	if a, isAlloc := bind.(*ssa.Alloc); isAlloc { // captured by reference: the cell holds the value
+		n := 0
+		for _, r := range core.Referrers(a) {
+			if st, ok := r.(*ssa.Store); ok && st.Addr == ssa.Value(a) {
+				bind = st.Val
+				n++
+			}
+		}
+		if n != 1 {
+			return sprintf("the captured cell is assigned %d times", n)
+		}
+	}
+	isSessionLoad := func(v ssa.Value) bool {
+		fr, ok := core.FieldOfValue(v)
+		return ok && fr.Is(pkWire, "Server", "Session")
+	}
+	// stores to Server.Session in the function that builds the value
+	sessionStores := func(f *ssa.Function) []*ssa.Store {
+		var out []*ssa.Store
+		for _, b := range f.Blocks {
 			for _, in := range b.Instrs {
-				st, ok := in.(*ssa.Store)
-				if !ok {
-					continue
-				}
-				if fr, ok := core.FieldOfAddr(st.Addr); !ok || !fr.Is(pkWire, "Server", "Session") {
-					continue
-				}
-				if call, ok := st.Val.(*ssa.Call); ok && len(call.Call.Args) == 1 {
-					if fr, ok := core.FieldOfValue(call.Call.Args[0]); ok && fr.Is(pkWire, "Server", "Session") {
-						okReg = true
+				if st, ok := in.(*ssa.Store); ok {
+					if fr, ok := core.FieldOfAddr(st.Addr); ok && fr.Is(pkWire, "Server", "Session") {
+						out = append(out, st)
 					}
 				}
 			}
 		}
+		return out
 	}
-	R.Check(okReg, "C19.R2", "SessionMiddleware:wraps-current-chain", c.atFn(sm), "registering a middleware wraps the current Server.Session chain", "Server.Session = wrapper(Server.Session)", "no store of wrapper(Server.Session) to Server.Session found")
+	strip := func(v ssa.Value) ssa.Value {
+		for {
+			if ct, ok := v.(*ssa.ChangeType); ok {
+				v = ct.X
+				continue
+			}
+			return v
+		}
+	}
+	w := fn.Parent()
+	if prm, isParam := bind.(*ssa.Parameter); isParam {
+		// wrapper shape
+		if w.Parent() == nil {
+			return "the binding is a parameter of a named function"
+		}
+		for _, r := range returns(w) {
+			if len(r.Results) != 1 || strip(forwardLoad(r.Results[0])) != ssa.Value(mc) {
+				return "the wrapper does not return the composed handler on every path"
+			}
+		}
+		pi := -1
+		for i, p := range w.Params {
+			if p == prm {
+				pi = i
+			}
+		}
+		var mw *ssa.MakeClosure
+		var wv ssa.Value
+		for _, b := range w.Parent().Blocks {
+			for _, in := range b.Instrs {
+				if m, ok := in.(*ssa.MakeClosure); ok && m.Fn == ssa.Value(w) {
+					mw = m
+				}
+			}
+		}
+		if mw != nil {
+			wv = mw
+		} else {
+			wv = w // a function literal without captures
+		}
+		nSites := 0
+		for _, st := range sessionStores(w.Parent()) {
+			call, ok := strip(st.Val).(*ssa.Call)
+			if !ok || strip(call.Call.Value) != wv && !(mw == nil && core.StaticCallee(call) == w) {
+				continue
+			}
+			nSites++
+			if pi < len(call.Call.Args) && isSessionLoad(call.Call.Args[pi]) {
+				*prevOK, *regOK = true, true
+			} else {
+				return "the wrapper is not applied to the current Server.Session"
+			}
+		}
+		if nSites == 0 {
+			return "no Server.Session = wrapper(..) store"
+		}
+		return ""
+	}
+	// in-place shape
+	if !isSessionLoad(bind) {
+		return "the binding is neither the wrapper's parameter nor a read of Server.Session"
+	}
+	ld, _ := core.Strip(bind).(ssa.Instruction)
+	for _, st := range sessionStores(w) {
+		if strip(st.Val) != ssa.Value(mc) {
+			continue
+		}
+		*regOK = true
+		if ld != nil && core.InstrDominates(ld, st) {
+			*prevOK = true
+		} else {
+			return "Server.Session is read after the composed handler was stored (the handler would call itself)"
+		}
+	}
+	if !*regOK {
+		return "the composed handler is not stored to Server.Session"
+	}
+	return ""
 }
 
 func allNested(fn *ssa.Function) []*ssa.Function {
